@@ -321,5 +321,44 @@ def cli():
     repo = os.environ.get('VERIF_REPO', '/repo')
     sys.path.insert(0, repo)
     mod = importlib.import_module('checks.' + a.prop.lower())
+    if a.replay:
+        sys.exit(replay_file(a.prop.upper(), mod, a.tier, seed, a.replay))
     rc = main(a.prop.upper(), mod, a.tier, seed)
     sys.exit(rc)
+
+
+def replay_file(prop, mod, tier, seed, path):
+    """re-run the native side of one recorded violation against the current tree: the verifier's counterexample (or the
+    recorded native witness) is replayed on the real code; exit 1 and a VIOLATION line if it still fails"""
+    d = json.load(open(path))
+    units = {u.name: u for u in mod.units(tier, seed)}
+    u = units.get(d.get('unit'))
+    if u is None:
+        print('replay: unit %r is not part of this check any more' % d.get('unit'))
+        return 3
+    tries = []
+    for ob in d.get('failed', []):
+        inp = (ob.get('detail') or {}).get('inputs')
+        if inp:
+            tries.append(inp)
+    w = {}
+    for inp in tries or [{}]:
+        if u.replay is None:
+            break
+        try:
+            w = u.replay(inp) or {}
+        except Exception:
+            w = dict(reproduced=False, error=traceback.format_exc()[-400:])
+        if w.get('reproduced'):
+            break
+    if not w.get('reproduced') and u.search is not None:
+        try:
+            w = u.search(seed) or {}
+        except Exception:
+            w = dict(reproduced=False, error=traceback.format_exc()[-400:])
+    print(json.dumps(w, default=str)[:2000])
+    if w.get('reproduced'):
+        print('VIOLATION property=%s replay=%s' % (prop, path))
+        return 1
+    print('replay: not reproduced on the current tree')
+    return 0
